@@ -31,7 +31,7 @@ ASSUMPTIONS = [
     'after hop h was released',
 ]
 NSH = 16
-NCHAIN = {'quick': 192, 'thorough': 3000}
+NCHAIN = {'quick': 192, 'thorough': 9000}
 L = E.L
 
 
